@@ -123,8 +123,10 @@ ASSUMPTIONS = [
     "field types of the integer kinds: char, unsigned char, short, int and int-based enums (IntTy) are executed by the "
     "engine and compared with the compiled macros; unsigned short, unsigned, long, unsigned long (LP64) are covered by "
     "the theorems `..._int_wide` over intCbW (Param/Wide.lean), which is proved equal to the executed model on the four "
-    "IntTy types (intCbW_eq_intCb) but is not itself compared with the implementation (no port of the harness table has "
-    "such a field; checked once by hand against the compiled macros); for these types the clamping theorem needs the "
+    "IntTy types (intCbW_eq_intCb) and which the engine executes for the ports pus, pusb (unsigned short), pun, punr "
+    "(unsigned), pl, pln (long), pul (unsigned long) of the harness table - compared with the compiled macros on every "
+    "run like the IntTy ports (the int32 argument converts to the field's type modulo 2^bits, events carry the low 32 "
+    "bits); for these types the clamping theorem needs the "
     "declared bounds to be values of decltype(var+0) - not negative for unsigned / unsigned long (trigger "
     "boundOutsidePromoted, limitIntW_clamps_counterexample: rParamI on an `unsigned` with rLinear(-1,10) stores 10 for "
     "incoming 5) - and messages carry the low 32 bits of a value",
@@ -147,8 +149,10 @@ TRUSTED = [
     "for delivery_through_recur: C04's model of Ports::dispatch / rRecurCb / SNIP (RtoscModel/Ports/*.lean) and C05's "
     "matcher, validated by the correspondence runs of C04 and C05, not of this property",
     "RtoscModel/Param/Wide.lean (integer callbacks for unsigned short / unsigned / long / unsigned long): hand-written, "
-    "validated only by its proved equality with the executed model on char/unsigned char/short/int and by a one-off "
-    "probe of the compiled macros (unsigned, long, unsigned short, unsigned long fields; 21 messages)",
+    "validated by its proved equality with the executed model on char/unsigned char/short/int and by the correspondence "
+    "run on the ports pus, pusb, pun, punr, pl, pln, pul (rParamI on unsigned short / unsigned / long / unsigned long "
+    "fields with non-negative declared bounds for the unsigned ones; rParam with tag `c` and array elements of these "
+    "types are not in the harness table)",
     "RtoscModel/Meta.lean (C17) for prop[\"min\"], prop[\"max\"] and the iteration in enum_key",
     "the expansion tables of the metadata macros (OPTIONS_IMPn, rOptionsBound, DOC_IMPn, MAC_EACH) are not modelled and "
     "no theorem speaks about them: the model reads the metadata block they generate. They are checked only by the "
@@ -191,7 +195,25 @@ LEVEL_NOTE = ("Not covered by a theorem: the metadata expansion macros (DOC_IMPn
               "does not name (ASSUMPTIONS; witness in the corpus, crash-only); float "
               "bounds given as hex/inf/nan literals are outside the model (explicit `unsup`) and outside the generator.")
 
-INT_RANGE = {"i8": (-128, 127), "u8": (0, 255), "i16": (-32768, 32767), "i32": (-2 ** 31, 2 ** 31 - 1)}
+INT_RANGE = {"i8": (-128, 127), "u8": (0, 255), "i16": (-32768, 32767), "i32": (-2 ** 31, 2 ** 31 - 1),
+             "u16": (0, 65535), "u32": (0, 2 ** 32 - 1), "i64": (-2 ** 63, 2 ** 63 - 1), "u64": (0, 2 ** 64 - 1)}
+# the wide C integer types (Param/Wide.lean).  A message carries a 32-bit `i`: `T var = rtosc_argument(msg,0).i`
+# converts it to the field's type modulo 2^bits (a negative argument of an unsigned field becomes a large value), and
+# replies / broadcasts / undo events carry the low 32 bits of a value (va_arg(ap, int)).
+WIDE = ("u16", "u32", "i64", "u64")
+
+
+def wrap_ty(ty, v):
+    lo, hi = INT_RANGE[ty]
+    return (v - lo) % (hi - lo + 1) + lo
+
+
+def w32(v):
+    return wrap_ty("i32", v)
+
+
+def is_wide(P):
+    return P["kind"] == "int" and P["var"] in WIDE
 
 # ------------------------------------------------------------------------------------------
 # the oracle's own description of what each port DECLARES (independent of the harness dump
@@ -256,6 +278,14 @@ PORTS = {
     "aicb": dict(kind="int", tag="i", store="i8", var="i8", n=3, lo=-100, hi=200),
     "psb": dict(kind="int", tag="i", store="i16", var="i16", lo=-40000, hi=40000),
     "pucn": dict(kind="int", tag="c", store="u8", var="u8", lo=-10, hi=300),
+    # fields of the wide integer types (engine: intCbW of Param/Wide.lean)
+    "pus": dict(kind="int", tag="i", store="u16", var="u16", lo=0, hi=60000),
+    "pusb": dict(kind="int", tag="i", store="u16", var="u16", lo=3, hi=70000),
+    "pun": dict(kind="int", tag="i", store="u32", var="u32"),
+    "punr": dict(kind="int", tag="i", store="u32", var="u32", lo=10, hi=2000000000),
+    "pl": dict(kind="int", tag="i", store="i64", var="i64", lo=-2000000000, hi=2000000000),
+    "pln": dict(kind="int", tag="i", store="i64", var="i64", lo=-100),
+    "pul": dict(kind="int", tag="i", store="u64", var="u64", lo=5, hi=1000000),
     "pcb": dict(kind="int", tag="c", store="i8", var="i8", lo=-200, hi=100),
     # rSpecial / rShort / rDefault / rCentered / rNoDefaults entries in front of the range
     "pfs": dict(kind="flt", lo="0", hi="2.5"),
@@ -450,6 +480,20 @@ def nextf(b, d):
 
 
 def int_values(rng, P):
+    if is_wide(P):
+        # the argument is an int32 whatever the field's type; candidates: the int32 values that convert to the
+        # neighbourhood of the declared bounds and of the type's limits
+        lo_s, hi_s = INT_RANGE["i32"]
+        c = [lo_s, hi_s, lo_s + 1, hi_s - 1, 0, 1, -1, -2, 2, 65535, 65536, 65537, -65535, -65536, -65537, 32767, 32768]
+        for b in ("lo", "hi"):
+            if b in P:
+                c += [w32(int(P[b]) + d) for d in (-2, -1, 0, 1, 2)]
+        r = rng.random()
+        if r < 0.6:
+            return rng.choice(c)
+        if r < 0.8:
+            return w32(rng.choice(c) + rng.randint(-300, 300))
+        return rng.randint(lo_s, hi_s)
     lo_s, hi_s = INT_RANGE[P["store"] if P["kind"] == "opt" else P["var"]]
     c = [lo_s, hi_s, lo_s + 1, hi_s - 1, 0, 1, -1]
     for b in ("lo", "hi"):
@@ -675,6 +719,7 @@ def generate(rng, tier, stats):
     vo = [i for i in ids if PORTS[i].get("vo")]
     doc = [i for i in ids if re.fullmatch(r"[de]\d+x?", i)]
     rest = [i for i in ids if i != "v9" and i not in big]
+    wide = [i for i in ids if is_wide(PORTS[i])]
     every = max(1, n // 100)
     for j in range(n):
         if j % every == 0:
@@ -687,6 +732,8 @@ def generate(rng, tier, stats):
             pid = rng.choice(vo)
         elif j % 25 in (7, 8, 9, 10):
             pid = rng.choice(doc)
+        elif j % 25 == 11:
+            pid = rng.choice(wide)
         else:
             pid = rng.choice(rest)
         yield gen_line(rng, pid, stats)
@@ -796,6 +843,8 @@ def outside(P, loc, before, tok, trunc=False):
             return True
         v = int(arg[1:])
         lo_s, hi_s = INT_RANGE[P["var"]]
+        if is_wide(P):
+            v = wrap_ty(P["var"], v)        # T var = rtosc_argument(msg,0).i
         if not (lo_s <= v <= hi_s) or not (lo_s <= old <= hi_s):
             return True
         lo, hi = decl_bounds_int(P, trunc)
@@ -877,7 +926,7 @@ def check_msg(P, loc, before, seg, tok, trunc=False):
             return "query: expected one reply at %r, got %r" % (loc, evs), after
         r = reps[0]
         if k == "int" or k == "opt":
-            ok = r[2] in ("i", "c") and int(r[3][0]) == old
+            ok = r[2] in ("i", "c") and int(r[3][0]) == (w32(old) if is_wide(P) else old)
         elif k == "flt":
             ok = r[2] == "f" and int(r[3][0], 16) == old
         elif k == "tog":
@@ -887,11 +936,15 @@ def check_msg(P, loc, before, seg, tok, trunc=False):
         return (None if ok else "query replied %r, stored value is %r" % (r, old)), after
     # ---- set: is the incoming value one the property quantifies over? ---------------------
     t = arg[0]
+    wire = lambda x: x                      # what an event carries of a value
     if k == "int":
         if t != P["tag"]:
             return None, after
         v = int(arg[1:])
         lo_s, hi_s = INT_RANGE[P["var"]]
+        if is_wide(P):
+            v = wrap_ty(P["var"], v)        # T var = rtosc_argument(msg,0).i
+            wire = w32                      # events carry the low 32 bits
         if not (lo_s <= v <= hi_s) or not (lo_s <= old <= hi_s):
             return None, after
         lo, hi = decl_bounds_int(P, trunc)
@@ -963,7 +1016,7 @@ def check_msg(P, loc, before, seg, tok, trunc=False):
     if changed:
         bc = [e for e in at_loc if e[0] == "B"]
         if k in ("int", "opt"):
-            ok = any(e[2] in ("i", "c") and dec(e[3][0]) == new for e in bc)
+            ok = any(e[2] in ("i", "c") and dec(e[3][0]) == wire(new) for e in bc)
         elif k == "flt":
             ok = any(e[2] == "f" and dec(e[3][0]) == new for e in bc)
         elif k == "tog":
@@ -980,7 +1033,7 @@ def check_msg(P, loc, before, seg, tok, trunc=False):
             u = undo[0]
             if len(u[3]) != 3 or len(u[2]) != 3 or u[2][0] != "s" or unhx(u[3][0]) != loc:
                 return "undo event malformed or wrong address: %r" % (u,), after
-            if dec(u[3][1]) != old or dec(u[3][2]) != new:
+            if dec(u[3][1]) != wire(old) or dec(u[3][2]) != wire(new):
                 return "undo event carries (%s, %s), true old/new are (%r, %r)" % (u[3][1], u[3][2], old, new), after
             if k == "flt" and u[2] != "sff":
                 return "undo event of a float port has types %s" % u[2], after
